@@ -189,7 +189,7 @@ func runC07(r *Run, verifDir string) {
 					return false
 				}
 				_, fld, ok := fieldAddrOf(u.X)
-				return ok && fld.Name() == "max"
+				return ok && fname(fld) == "max"
 			}
 			if bo.X == ssa.Value(cnbCall) && isMax(bo.Y) {
 				cut[edge{b, b.Succs[1]}] = true // need <= max
